@@ -1,0 +1,41 @@
+//go:build verif
+
+package twooffive
+
+// VerifPatternWidth exposes the constant patternWidth.
+const VerifPatternWidth = patternWidth
+
+// VerifEncodingTable exposes encodingTable for the /verif translator:
+// rune -> five flags (true = wide element).
+func VerifEncodingTable() map[rune][]bool {
+	res := make(map[rune][]bool, len(encodingTable))
+	for r, p := range encodingTable {
+		res[r] = append([]bool(nil), p[:]...)
+	}
+	return res
+}
+
+// VerifMode is a copy of one entry of modes.
+type VerifMode struct {
+	Start  []bool
+	End    []bool
+	Widths map[bool]int
+}
+
+// VerifModes exposes modes: interleaved -> start pattern, end pattern, element widths.
+func VerifModes() map[bool]VerifMode {
+	res := make(map[bool]VerifMode, len(modes))
+	for k, m := range modes {
+		w := make(map[bool]int, len(m.widths))
+		for b, v := range m.widths {
+			w[b] = v
+		}
+		res[k] = VerifMode{append([]bool(nil), m.start...), append([]bool(nil), m.end...), w}
+	}
+	return res
+}
+
+// VerifNonInterleavedSpace exposes nonInterleavedSpace.
+func VerifNonInterleavedSpace() []bool {
+	return append([]bool(nil), nonInterleavedSpace[:]...)
+}
